@@ -12,6 +12,7 @@ from .. import harness as H
 from .. import gen as G
 from .. import model as M
 from .. import shapes as S
+from .. import unions as U
 from ..common import Check, digest, log, rng_for
 
 PROP = "C15"
@@ -229,6 +230,12 @@ def main(tier, seed, scale=1.0):
             ts = G.normalise_traits(rng.sample(G.ALL_TRAITS, rng.randint(3, 9)))
             rng.shuffle(ts)
             td = G.random_type(rng, ts, G.Opts(p_attr=0.9, rich=rng.random() < 0.3, p_packed=0.4))
+            if rng.random() < 0.08:
+                # unions: each byte-wise impl and the Default impl stand alone as well
+                for _ in range(8):
+                    td = U.random_union(rng)
+                    if len(td.traits) >= 2:
+                        break
             t = rng.choice(td.traits)
             keep = {t} | {p for p in PARTNERS.get(t, []) if p in td.traits}
             red = reduce_to(td, keep)
